@@ -472,6 +472,30 @@ XformVerdict(c) ==
        \o (IF x.mut > 0 THEN <<"C15:a string delivered by value changed afterwards (ExpectObjVisitor)">> ELSE <<>>)
 
 \* ---- the trace machine ----------------------------------------------------------
+\* ---- kind "refuseseq" (C11) ------------------------------------------------------------------
+(* extra.ops: type descriptors taken in order through ONE iterator and ONE  *)
+(* unfolder (fold / set) and through fresh ones (ffold / fset).  A type that *)
+(* statically contains a kind the library cannot handle must be refused by   *)
+(* an error whatever was compiled before; a supported type stays accepted.   *)
+RefuseSeqVerdict(c) ==
+  IF c.outcome # "ok" THEN <<"C11:outcome:" \o c.outcome>>
+  ELSE FlattenSeq([oi \in 1..Len(c.extra.ops) |->
+    LET o == c.extra.ops[oi]
+        must == TypeHasRefusal(o.T, 8)
+        want == IF must THEN "err" ELSE "nil" IN
+    (IF "panic" \in {o.fold, o.ffold, o.set, o.fset}
+       THEN <<"C11:a type that cannot be handled is met by a crash, not by an error">> ELSE <<>>)
+    \o (IF o.ffold # "panic" /\ o.ffold # want
+         THEN <<IF must THEN "C11:a type that cannot be handled was not refused with an error when folding"
+                ELSE "C11:a supported type was refused when folding">> ELSE <<>>)
+    \o (IF o.fset # "panic" /\ o.fset # want
+         THEN <<IF must THEN "C11:a type that cannot be handled was not refused with an error when the target was set"
+                ELSE "C11:a supported type was refused when the target was set">> ELSE <<>>)
+    \o (IF o.fold # "panic" /\ o.ffold # "panic" /\ o.fold # o.ffold
+         THEN <<"C11:folding is refused or accepted depending on the types the iterator handled before">> ELSE <<>>)
+    \o (IF o.set # "panic" /\ o.fset # "panic" /\ o.set # o.fset
+         THEN <<"C11:a target type is refused or accepted depending on the targets the unfolder had before">> ELSE <<>>)])
+
 Verdict(c) ==
   CASE c.kind = "parse" -> ParseVerdict(c)
     [] c.kind \in {"encode", "roundtrip"} -> EncodeVerdict(c, IF c.kind = "encode" THEN "C07" ELSE "C01")
@@ -489,6 +513,7 @@ Verdict(c) ==
     [] c.kind = "goreuse" -> GoReuseVerdict(c)
     [] c.kind = "conc" -> ConcVerdict(c)
     [] c.kind = "xform" -> XformVerdict(c)
+    [] c.kind = "refuseseq" -> RefuseSeqVerdict(c)
     [] OTHER -> <<"INFRA:unknown case kind">>
 
 Init == i = 1 /\ nfail = 0
